@@ -25,6 +25,7 @@ EXPLANATION = (
     "(SCALE zero-test) the zero early-out is taken only on request and only for a scale "
     "equal to zero; (FRESH) no in-place write reaches a value that may share storage with "
     "the caller's arrays. "
+    "Round 7: (ZEROSHAPE, known finding F31) the executor's stripped returns agree in kind: no bare-number mantissa next to array-valued ones, because per-slice results are stacked along sliced output indices. "
 )
 ASSUMPTIONS = (
     "contract_mpi is out of scope: it documents a plain sum of raw buffers reduced by "
